@@ -111,19 +111,22 @@ Print Assumptions C18_multiline_recognised.
 Check C18_multiline_recognised : forall text, has_lf text = true ->
   is_single_line_comment (comment_of text) = false.
 
-Theorem C18_singleline_recognised : forall c text, has_lf (c :: text) = false -> c <> 91 ->
-  is_single_line_comment (comment_of (c :: text)) = true.
+Theorem C18_singleline_recognised : forall text, text <> [] -> has_lf text = false ->
+  Known_opener text = false -> is_single_line_comment (comment_of text) = true.
 Proof. exact singleline_recognised. Qed.
 Print Assumptions C18_singleline_recognised.
-Check C18_singleline_recognised : forall c text, has_lf (c :: text) = false -> c <> 91 ->
-  is_single_line_comment (comment_of (c :: text)) = true.
+Check C18_singleline_recognised : forall text, text <> [] -> has_lf text = false ->
+  Known_opener text = false -> is_single_line_comment (comment_of text) = true.
 
-Theorem C18_singleline_recognised_refuted : exists text, has_lf text = false /\ Known_opener text = false /\
-  Known_cr text = false /\ is_single_line_comment (comment_of text) = false.
-Proof. exact singleline_recognised_refuted. Qed.
-Print Assumptions C18_singleline_recognised_refuted.
-Check C18_singleline_recognised_refuted : exists text, has_lf text = false /\ Known_opener text = false /\
-  Known_cr text = false /\ is_single_line_comment (comment_of text) = false.
+(** The generator's classification of ANY comment is the reference lexer's (a long comment exactly
+    when a long-bracket opener follows "--").  Before /repo commit fc507f0 this was refuted by
+    "--[a[" ([C18_singleline_recognised_refuted], now gone). *)
+Theorem C18_classifier_agrees : forall t,
+  is_multiline_comment (45 :: 45 :: t) = match long_open t with Some _ => true | None => false end.
+Proof. exact classifier_agrees. Qed.
+Print Assumptions C18_classifier_agrees.
+Check C18_classifier_agrees : forall t,
+  is_multiline_comment (45 :: 45 :: t) = match long_open t with Some _ => true | None => false end.
 
 (** Token level: the filters of remove_comments (any [except] oracle [keep]), remove_spaces and
     the two insertions of append_text_comment keep the code part of every token, remove exactly
@@ -172,7 +175,7 @@ Check C18_append_keeps_code_partial : forall (A : Type) comment (t : ttoken A) (
 
 (** Generator level ([Model/TokenGen.v]): after a comment that the generator classifies as a line
     comment, the next non-empty token or symbol starts on a new line — this discharges the
-    [line_follow] hypothesis of [C18_comment_closed] for such comments ... *)
+    [line_follow] hypothesis of [C18_comment_closed] ... *)
 Theorem C18_line_comment_then_token : forall st c x t l sc, is_single_line_comment c = true ->
   exists rest, g_out (write_token (write_trivia st KComment c) (x :: t) l sc) = g_out st ++ c ++ 10 :: rest.
 Proof. exact line_comment_then_token. Qed.
@@ -187,14 +190,21 @@ Print Assumptions C18_line_comment_then_symbol.
 Check C18_line_comment_then_symbol : forall st c x t sc, is_single_line_comment c = true ->
   exists rest, g_out (write_symbol (write_trivia st KComment c) (x :: t) sc) = g_out st ++ c ++ 10 :: rest.
 
-(** ... and three ways in which the generated text still lets a comment swallow code (recorded
-    defects): a comment misclassified as long ("--[a["), a raw push after a line comment, and a
-    "-" token glued to a following comment once white space is removed. *)
+(** ... for every comment that the reference lexer reads as a short comment (the former
+    misclassification of "--[a[" is repaired: fc507f0). *)
+Theorem C18_reference_line_comment_then_token : forall st t x r l sc, long_open t = None ->
+  exists rest, g_out (write_token (write_trivia st KComment (45 :: 45 :: t)) (x :: r) l sc)
+               = g_out st ++ (45 :: 45 :: t) ++ 10 :: rest.
+Proof. exact reference_line_comment_then_token. Qed.
+Print Assumptions C18_reference_line_comment_then_token.
+Check C18_reference_line_comment_then_token : forall st t x r l sc, long_open t = None ->
+  exists rest, g_out (write_token (write_trivia st KComment (45 :: 45 :: t)) (x :: r) l sc)
+               = g_out st ++ (45 :: 45 :: t) ++ 10 :: rest.
+
+(** Two ways in which the generated text still lets a comment swallow code (recorded defects):
+    a raw push after a line comment, and a "-" token glued to a following comment once white
+    space is removed. *)
 Theorem C18_generator_swallows_refuted :
-  (let c := of_string "--[a[" in
-   lex_comment (c ++ [59]) = Some (List.length (c ++ [59])) /\
-   g_out (run g_init [RToken [49] (Some 1%nat) true; RTrivia KComment c; RToken [59] (Some 1%nat) true])
-     = [49] ++ c ++ [59]) /\
   (let c := of_string "--c" in
    is_single_line_comment c = true /\
    g_out (run g_init [RToken [40] (Some 1%nat) true; RTrivia KComment c; RRaw [46; 46; 46]])
@@ -203,13 +213,9 @@ Theorem C18_generator_swallows_refuted :
    g_out (run g_init [RToken [97] (Some 1%nat) true; RToken [45] (Some 1%nat) true; RTrivia KComment c])
      = of_string "a--- c" /\
    lex_comment (of_string "--- c") = Some 5%nat).
-Proof. exact (conj misclassified_comment_swallows_token (conj raw_push_swallowed minus_glued_to_comment)). Qed.
+Proof. exact (conj raw_push_swallowed minus_glued_to_comment). Qed.
 Print Assumptions C18_generator_swallows_refuted.
 Check C18_generator_swallows_refuted :
-  (let c := of_string "--[a[" in
-   lex_comment (c ++ [59]) = Some (List.length (c ++ [59])) /\
-   g_out (run g_init [RToken [49] (Some 1%nat) true; RTrivia KComment c; RToken [59] (Some 1%nat) true])
-     = [49] ++ c ++ [59]) /\
   (let c := of_string "--c" in
    is_single_line_comment c = true /\
    g_out (run g_init [RToken [40] (Some 1%nat) true; RTrivia KComment c; RRaw [46; 46; 46]])
